@@ -483,6 +483,37 @@ Proof.
   apply agrees_fold; [|exact SU]. unfold agrees. cbn. auto.
 Qed.
 
+Lemma run_from_app ops1 : forall r ops2, run_from r (ops1 ++ ops2) = run_from (run_from r ops1) ops2.
+Proof.
+  induction ops1 as [|o ops1 IH]; intros r ops2; [reflexivity|].
+  cbn [app]. rewrite !run_from_cons. apply IH.
+Qed.
+
+(* the generation counts stored with a sample are those of the DDS automaton after the
+   change: (disposed, no-writers) generation in which the sample was written *)
+Theorem stored_sample_counts_spec q ops1 w h k t d rts :
+  let ops := ops1 ++ [OpAdd w h k t d rts] in
+  let xs := snd (run_obs (init_reader q) ops) in
+  let evs := events true h ops xs in
+  all_stored xs -> sole_unregister evs ->
+  snd (add_change (run q ops1) w d k h t rts) = Added ->
+  exists smp, In smp (r_samples (run q ops)) /\ s_inst smp = h /\ s_data smp = d /\ s_writer smp = w /\
+              s_dgc smp = l_dgc (spec_run evs) /\ s_nwgc smp = l_nwgc (spec_run evs).
+Proof.
+  cbv zeta. intros A SU Ha.
+  pose proof (lifecycle_refines_spec q (ops1 ++ [OpAdd w h k t d rts]) h A SU) as (_ & _ & Ad & An).
+  assert (Er : run q (ops1 ++ [OpAdd w h k t d rts]) = fst (add_change (run q ops1) w d k h t rts)).
+  { unfold run. change (fst (run_obs (init_reader q) (ops1 ++ [OpAdd w h k t d rts])))
+      with (run_from (init_reader q) (ops1 ++ [OpAdd w h k t d rts])).
+    rewrite run_from_app, run_from_cons. cbn [step run_from run_obs fst].
+    change (run_from (init_reader q) ops1) with (fst (run_obs (init_reader q) ops1)).
+    destruct (add_change (fst (run_obs (init_reader q) ops1)) w d k h t rts); reflexivity. }
+  destruct (add_change_stored_counts _ _ _ _ _ _ _ Ha) as (smp & i & Hin & Hf & Hh & Hd & Hw & _ & _ & Hdg & Hnw).
+  rewrite <- Er in Hin, Hf. exists smp. repeat split; try assumption.
+  - rewrite Hdg, <- Ad. unfold inst_or_new. now rewrite Hf.
+  - rewrite Hnw, <- An. unfold inst_or_new. now rewrite Hf.
+Qed.
+
 (* single writer per instance implies sole_unregister *)
 Definition writer_of_change (e : lev) (w0 : Z) : Prop :=
   match e with LChange w _ => w = w0 | LAccess => True end.
